@@ -252,6 +252,52 @@ Qed.
 
 End Stmts.
 
+(* ------------------------------------------------------------------ store laws: PUT/GET, scalar variables *)
+Section Stores.
+Context {A : Type}.
+
+Lemma zlist_eqb_spec : forall a b, zlist_eqb a b = true <-> a = b.
+Proof.
+  induction a as [|x a IH]; destruct b as [|y b]; simpl; split; intros H; try reflexivity; try discriminate.
+  - apply andb_prop in H. destruct H as [H1 H2]. apply Z.eqb_eq in H1. apply IH in H2. subst. reflexivity.
+  - inversion H; subst. rewrite Z.eqb_refl. simpl. apply IH. reflexivity.
+Qed.
+
+(* PUT(v, k...) then GET(k...) yields v; every other key keeps its value (and its EXISTS status) *)
+Theorem put_get_laws : forall (l : list (list Z * A)) k v,
+  assoc_k (set_k l k v) k = Some v /\ forall k', k' <> k -> assoc_k (set_k l k v) k' = assoc_k l k'.
+Proof.
+  intros l k v. split.
+  - induction l as [|[k0 v0] r IH]; simpl.
+    + replace (zlist_eqb k k) with true by (symmetry; apply zlist_eqb_spec; reflexivity). reflexivity.
+    + destruct (zlist_eqb k0 k) eqn:E; simpl.
+      * replace (zlist_eqb k k) with true by (symmetry; apply zlist_eqb_spec; reflexivity). reflexivity.
+      * rewrite E. exact IH.
+  - intros k' Hne. induction l as [|[k0 v0] r IH]; simpl.
+    + destruct (zlist_eqb k k') eqn:E; [apply zlist_eqb_spec in E; congruence | reflexivity].
+    + destruct (zlist_eqb k0 k) eqn:E; simpl.
+      * apply zlist_eqb_spec in E. subst k0.
+        destruct (zlist_eqb k k') eqn:E2; [apply zlist_eqb_spec in E2; congruence | reflexivity].
+      * destruct (zlist_eqb k0 k'); [reflexivity | exact IH].
+Qed.
+
+(* assignment to a scalar variable then reading it; other variables untouched *)
+Theorem var_store_laws : forall (l : list (string * A)) x v,
+  assoc_s (set_s l x v) x = Some v /\ forall y, y <> x -> assoc_s (set_s l x v) y = assoc_s l y.
+Proof.
+  intros l x v. split.
+  - induction l as [|[k0 v0] r IH]; simpl.
+    + rewrite String.eqb_refl. reflexivity.
+    + destruct (String.eqb k0 x) eqn:E; simpl; [rewrite String.eqb_refl; reflexivity | rewrite E; exact IH].
+  - intros y Hne. induction l as [|[k0 v0] r IH]; simpl.
+    + destruct (String.eqb x y) eqn:E; [apply String.eqb_eq in E; congruence | reflexivity].
+    + destruct (String.eqb k0 x) eqn:E; simpl.
+      * apply String.eqb_eq in E. subst k0. destruct (String.eqb x y) eqn:E2; [apply String.eqb_eq in E2; congruence | reflexivity].
+      * destruct (String.eqb k0 y); [reflexivity | exact IH].
+Qed.
+
+End Stores.
+
 (* ------------------------------------------------------------------ tokenizer / compile *)
 Section Compile.
 Variable tbl : kwtable.
